@@ -73,8 +73,9 @@ def cfgs_of(line):
 
 
 def struct_of(st):
-    """(set of tag keys, {pattern key: set of accepted tag keys})"""
+    """(set of tag keys, {pattern key: set of accepted tag keys}, set of constructed tuple keys)"""
     tags = set(split_strings(sub(st, "tags") or ""))
+    builds = set(split_strings(sub(st, "builds") or ""))
     pats, k = {}, 0
     while True:
         i = st.find("(pat ", k)
@@ -84,7 +85,7 @@ def struct_of(st):
         ss = split_strings(body)
         pats.setdefault(ss[0], set()).update(ss[1:])
         k = i + 1
-    return tags, pats
+    return tags, pats, builds
 
 
 # ---------------------------------------------------------------- end-to-end generator
@@ -278,6 +279,74 @@ def report_finding(ctx, obj, key, known_hits, limit=[0]):
     return True
 
 
+# ---------------------------------------------------------------- targeted program templates
+RESULTS = [("'int", "1"), ("'bin", "0x01"), ("A", "A"), ("B['int]", "B[2]")]
+PARAMS = ["'int", "'bin", "C['int]", "('int | 'bin)"]
+
+
+def tmpl_narrow_tuple(rng):
+    """C08-1's shape: a tuple value whose exact type occurs in no signature or pattern (narrower than
+    the declared variant), built in a function that shares its signature with an earlier function, and
+    tested against the structurally wider union.  Expected: [0, index of the matching branch]."""
+    name = rng.choice(["Circle", "T", "Node"])
+    others = rng.sample(["Square", "Leaf", "Zed"], rng.choice([1, 2]))
+    lab = rng.choice(["r: ", "x: ", ""])
+    extra = rng.random() < 0.4
+    wide = "%s[%s('int | 'bin)%s]" % (name, lab, ", 'int" if extra else "")
+    variants = [wide] + others
+    order = list(range(len(variants)))
+    rng.shuffle(order)
+    decl = " | ".join(variants[i] for i in order)
+    branches, expect = [], None
+    for k, i in enumerate(order):
+        if i == 0:
+            branches.append("=%s[%s_%s] => %d" % (name, lab, ", _" if extra else "", k + 1))
+            expect = k + 1
+        else:
+            branches.append("=%s => %d" % (variants[i], k + 1))
+    value = "%s[%s~%s]" % (name, lab, ", 7" if extra else "")
+    src = ("'shape = %s, area = #'shape { | %s }, zero = #'int { 0 }, probe = #'int { %s ~> area }, [3 ~> zero, 3 ~> probe]"
+           % (decl, " | ".join(branches), value))
+    return src, ["0", str(expect)]
+
+
+def tmpl_function_patterns(rng):
+    """C08-2's shape: >= 2 functions sharing the parameter type with different result types, classified by
+    function-type patterns; preceded by a separate program (merged first) that defines yet another function
+    of the same parameter type.  Expected: the branch index per function, default for the int."""
+    param = rng.choice(PARAMS)
+    k = rng.choice([2, 2, 3])
+    res = rng.sample(RESULTS, k)
+    pre_res = rng.choice([r for r in RESULTS if r not in res] or RESULTS)
+    prelude = "label = #%s { %s }, 5" % (param, pre_res[1])
+    fns = ["g%d = #%s { %s }" % (i, param, r[1]) for i, r in enumerate(res)]
+    types = ["(#%s -> %s)" % (param, r[0]) for r in res]
+    pats = list(range(k))
+    rng.shuffle(pats)
+    npat = rng.choice([k, k, k - 1]) if k > 1 else k
+    pats = pats[:max(1, npat)]
+    branches = ["=%s => %d" % (types[j], n + 1) for n, j in enumerate(pats)]
+    default = len(pats) + 1
+    src = "%s, f = #(%s | 'int) { | %s | %d }, [%s, 5 f]" % (
+        ", ".join(fns), " | ".join(types), " | ".join(branches), default,
+        ", ".join("&g%d f" % i for i in range(k)))
+    expect = [str(pats.index(i) + 1) if i in pats else str(default) for i in range(k)] + [str(default)]
+    return prelude, src, expect
+
+
+def parse_ran(line):
+    """{configuration: outcome text} of a `(ran ..)` line"""
+    out = {}
+    for m in re.finditer(r"\((as-compiled|tree-shaken|merged-behind-\d+) ", line):
+        out[m.group(1)] = balanced(line, m.start())[len(m.group(1)) + 2:-1]
+    return out
+
+
+def ints_of(outcome):
+    m = re.match(r"\(ok \(t - \([- ]*\)((?: \(i -?\d+\))*)\)\)$", outcome)
+    return re.findall(r"\(i (-?\d+)\)", m.group(1)) if m else None
+
+
 def reg_literal(R):
     tus = " ".join("(tu %s%s)" % ("Ok" if n == "Ok" else ("-" if n is None else n),
                                   "".join(" (%s %d)" % ("-" if l is None else l, t) for l, t in fs)) for n, fs in R.tuples)
@@ -331,10 +400,24 @@ def run(ctx):
         for _ in range(1500):
             a, b = rng.choice(harvested), rng.choice(harvested)
             lines.append(sexpr.quote(sexpr.parse(a) + ",\n" + sexpr.parse(b)))
+    # targeted templates (each also executed in its three configurations further down)
+    tmpl = []        # (source, expected ints or None)
+    for src in load_corpus("c08_run.txt"):
+        items = sexpr.parse("(" + src + ")")
+        tmpl.append((items[0], items[1:] or None))
+    for _ in range(ctx.n(60, 1500)):
+        tmpl.append(tmpl_narrow_tuple(rng))
+    for _ in range(ctx.n(60, 1500)):
+        pre, src, exp = tmpl_function_patterns(rng)
+        tmpl.append((pre, None))
+        tmpl.append((src, exp))
+    ntmpl_at = len(lines)
+    lines += [sexpr.quote(t[0]) for t in tmpl]
     rc, out = ctx.run_sharded(qc, lines, args=["--merge", "3"], shards=8, timeout=1500)
     inputs, real_tables, owner = [], [], []
     outcome_hist, cfg_hist = {}, {}
     config_failures = []
+    entry_lost = []      # a constructible tuple tag lost its Type::Tuple entry through tree-shaking / merging
     entry_dependent = []  # verdict differs between configurations only because the tag lacks a type entry in one
     untyped_entry = []   # F70c08: the entry function's process tag has no Process type entry
     for li, o in enumerate(out):
@@ -356,7 +439,14 @@ def run(ctx):
         # same verdict in every configuration, on structural images
         for i in range(len(structs)):
             for j in range(i + 1, len(structs)):
-                (na, (ta, pa)), (nb, (tb, pb)) = structs[i], structs[j]
+                (na, (ta, pa, ba)), (nb, (tb, pb, bb)) = structs[i], structs[j]
+                # has_type_entry (hypothesis of istype_complete) must survive packaging: a tuple shape that
+                # configuration nb constructs and that has a Type::Tuple entry in na (the earlier, fuller
+                # configuration) must still have one in nb
+                if na == "as-compiled":
+                    for tk in bb:
+                        if tk in ta and tk not in tb:
+                            entry_lost.append((li, na, nb, tk))
                 # tags whose structural image has a type entry in BOTH configurations; a tag without an
                 # entry is never accepted (no_type_entry_never_accepted) — that class is has_type_entry's,
                 # counted separately
@@ -390,9 +480,32 @@ def run(ctx):
             ctx.violation(obj, finding_key="F70c08")
         else:
             ctx.violation(obj)
+    for (li, na, nb, tk) in entry_lost[:4]:
+        ctx.violation({"kind": "impl-violation", "statement": "has_type_entry lost: a tuple the configuration constructs has a Type::Tuple entry as compiled but none after packaging, so every runtime type test rejects it there",
+                       "case": lines[li], "configurations": [na, nb], "tag": tk})
     for (li, na, nb, pk, tk, va) in config_failures[:4]:
         ctx.violation({"kind": "impl-violation", "statement": "table_config_invariant: the same (pattern, tag) gets a different verdict in two configurations of one program",
                        "case": lines[li], "configurations": [na, nb], "pattern": pk, "tag": tk, "accepted_in_first": va})
+    # ------------------------------------------------------------------ 1b. templates executed in every configuration
+    rcr, ran = ctx.run_sharded(qc, [sexpr.quote(t[0]) for t in tmpl], args=["--merge", "2", "--run"], shards=1, timeout=1500)
+    run_cfgs, run_failures = 0, 0
+    for (src, exp), r in zip(tmpl, ran):
+        outs = parse_ran(r)
+        if not outs:
+            if r.startswith("(panic"):
+                ctx.violation({"kind": "impl-violation", "statement": "panic while running a template program", "case": src, "real_output": r})
+            continue
+        run_cfgs += len(outs)
+        vals = set(outs.values())
+        bad = None
+        if len(vals) > 1:
+            bad = "the program gives different results as compiled / tree-shaken / merged"
+        elif exp is not None and ints_of(next(iter(vals))) != list(exp):
+            bad = "the program's type tests give %s, expected %s" % (next(iter(vals)), " ".join(exp))
+        if bad:
+            run_failures += 1
+            if run_failures <= 4:
+                ctx.violation({"kind": "impl-violation", "statement": bad, "case": src, "outcomes": outs, "expected": exp})
     # ------------------------------------------------------------------ 2. end-to-end verdicts
     n = ctx.n(1500, 40000)
     e2e = []
@@ -474,8 +587,9 @@ def run(ctx):
         "compile_outcomes": outcome_hist, "configurations_compared": len(inputs), "configurations_by_kind": cfg_hist,
         "table_rows_compared": rows_compared, "distinct_nontrivial": nontrivial,
         "rule": "every source string of quiver-tests, std/*.qv, examples, spec.md code blocks (+ corpus/c08_sources.txt; thorough: 1500 sequenced pairs), each in up to three configurations (as compiled, tree-shaken, merged behind 0-2 earlier programs); non-trivial = distinct CompatibilityInput (SHA-1) with a non-empty table row and a union or partial type",
-        "config_invariance_failures": len(config_failures), "verdicts_differing_only_by_missing_type_entry": len(entry_dependent),
+        "config_invariance_failures": len(config_failures), "constructible_tuple_entries_lost_by_packaging": len(entry_lost), "verdicts_differing_only_by_missing_type_entry": len(entry_dependent),
         "missing_type_entry_samples": [{"case": lines[li], "configurations": [na, nb], "pattern": pk, "tag": tk} for (li, na, nb, pk, tk) in entry_dependent[:3]], "configurations_with_untyped_entry_process_F70c08": len(untyped_entry),
+        "template_programs": len(tmpl), "template_configurations_executed": run_cfgs, "template_run_failures": run_failures,
         "e2e_cases_generated": len(e2e), "e2e_verdicts_compared": e2e_run, "e2e_mismatches": e2e_mismatch, "e2e_mismatches_matching_known_findings": known_hits, "e2e_mismatches_unmatched": unmatched, "e2e_pinned_probes": len(pinned),
         "e2e_outcomes": e2e_hist, "e2e_other_outcome_samples": odd_samples, "e2e_features": feat_hist,
         "traces_validated_against_impl": len(inputs) - disagreements, "disagreements_checked": disagreements,
